@@ -14,7 +14,7 @@ UTILS = [UT + "find_" + k for k in ("eq", "lt", "le", "gt", "ge")]
 SHARDS = {
     IX + "insert": 8, IX + "build": 8, IX + "_remove_tags": 6, IX + "remove": 6, IX + "update": 4, IX + "_remove_measurements": 2,
     IX + "_search_helper": 8, IX + "_search_timestamps": 8,
-    TF + "count": 12, TF + "contains": 12, TF + "search": 16, TF + "get": 16, TF + "all": 6, TF + "reindex": 4,
+    TF + "count": 12, TF + "contains": 12, TF + "search": 16, TF + "select": 16, TF + "get": 16, TF + "all": 6, TF + "reindex": 4,
     TF + "_remove_helper": 16, TF + "remove": 6, TF + "drop_measurement": 8, TF + "_reset_database": 2,
     "lemma:count": 4, TF + "_insert_helper": 16, TF + "_update_helper": 16, TF + "update": 6, TF + "update_all": 6, TF + "insert": 4, TF + "insert_multiple": 4,
 }
